@@ -180,6 +180,10 @@ def solve_task(task):
         lambda: _z3_py(smt2, timeout_ms, seed=13),
         lambda: _cli(["/usr/bin/z3", f"-T:{min(t, 10)}"], smt2, min(t, 10), "z3-4.8.12"),
     ]
+    if portfolio == "phase1":
+        plan = plan[:2]
+    elif portfolio == "phase2":
+        plan = plan[2:]
     for step in plan if portfolio else plan[:1]:
         r = step()
         attempts.append(r)
@@ -212,9 +216,41 @@ def pool():
     return _pool
 
 
-def solve_all(tasks):
-    if not tasks:
-        return []
-    if len(tasks) == 1 or os.environ.get("VF_SERIAL"):
+def _run(tasks):
+    if len(tasks) <= 1 or os.environ.get("VF_SERIAL"):
         return [solve_task(t) for t in tasks]
     return pool().map(solve_task, tasks, chunksize=1)
+
+
+MAX_DEEP = int(os.environ.get("VF_MAX_DEEP", "24"))
+
+
+def solve_all(tasks):
+    """Two phases, so that a tree on which MANY obligations fail does not cost minutes per
+    obligation: phase 1 runs two fast strategies on every VC; only the VCs still open go through
+    the rest of the portfolio, and at most MAX_DEEP of them (the others stay `unknown`: one open
+    obligation already makes the run not-discharged).  On the committed tree every VC is closed
+    in phase 1 or, for a handful, early in phase 2."""
+    if not tasks:
+        return []
+    full = [t for t in tasks if t[3] is True]
+    other = [t for t in tasks if t[3] is not True]
+    res = {r["key"]: r for r in _run(other)}
+    p1 = _run([(k, smt, tmo, "phase1") for (k, smt, tmo, _) in full])
+    open_keys = []
+    for r in p1:
+        res[r["key"]] = r
+        if r["result"] not in ("sat", "unsat"):
+            open_keys.append(r["key"])
+    by_key = {t[0]: t for t in full}
+    deep = open_keys[:MAX_DEEP]
+    for r in _run([(k, by_key[k][1], by_key[k][2], "phase2") for k in deep]):
+        prev = res[r["key"]]
+        r["attempts"] = prev["attempts"] + r["attempts"]
+        r["total_time"] = prev["total_time"] + r["total_time"]
+        if "candidate_model" in prev and "candidate_model" not in r and r["result"] not in ("sat", "unsat"):
+            r["candidate_model"] = prev["candidate_model"]
+        res[r["key"]] = r
+    for k in open_keys[MAX_DEEP:]:
+        res[k]["reason"] = (res[k].get("reason") or "") + " [not retried: more than %d obligations open after the fast strategies]" % MAX_DEEP
+    return [res[t[0]] for t in tasks]
